@@ -1,22 +1,21 @@
 #!/bin/bash
-# confirm_seed.sh <seed-id> <worktree>   (worktree has the change applied and tests/seed_demo.rs)
-# Confirms: patch == worktree diff; suite passes with the change; demo fails with it and passes without.
-id=$1; wt=$2; out=/tmp/seed/$id; log=$out/confirm.log
+# confirm_seed.sh <seed-id> <worktree> [RUSTFLAGS for the demo]
+# Confirms in a scratch worktree: suite passes with the change; demo fails with it and passes without.
+# Uses `git apply` / `git apply -R` (never `git stash`: the stash is shared between worktrees).
+id=$1; wt=$2; demoflags=$3; out=/tmp/seed/$id; log=$out/confirm.log
 exec > $log 2>&1
 set -x
 cd $wt || exit 9
-git diff -- src macros > $out/patch.check.diff
-if ! diff -q <(grep -v '^index ' $out/patch.diff) <(grep -v '^index ' $out/patch.check.diff); then echo "PATCH-MISMATCH (using worktree diff)"; cp $out/patch.check.diff $out/patch.diff; fi
-[ -f tests/seed_demo.rs ] || cp $out/seed_demo.rs tests/seed_demo.rs
-mv tests/seed_demo.rs /tmp/seed/$id/seed_demo.hold.rs
+git checkout -q -- . ; git clean -q -fd tests 2>/dev/null
+git apply $out/patch.diff || { echo "PATCH-DOES-NOT-APPLY"; echo NOT-CONFIRMED; exit 1; }
 cargo test --workspace --offline -j 6 > $out/suite_with_change.log 2>&1; s1=$?
 grep -E "^test result|FAILED|failed" $out/suite_with_change.log | head -20
-cp /tmp/seed/$id/seed_demo.hold.rs tests/seed_demo.rs
-timeout 900 cargo test --offline -j 6 --test seed_demo > $out/demo_with_change.log 2>&1; d1=$?
+cp $out/seed_demo.rs tests/seed_demo.rs
+RUSTFLAGS="$demoflags" timeout 1200 cargo test --offline -j 6 --test seed_demo > $out/demo_with_change.log 2>&1; d1=$?
 tail -5 $out/demo_with_change.log
-git stash push -- src macros
-timeout 900 cargo test --offline -j 6 --test seed_demo > $out/demo_without_change.log 2>&1; d0=$?
+git apply -R $out/patch.diff
+RUSTFLAGS="$demoflags" timeout 1200 cargo test --offline -j 6 --test seed_demo > $out/demo_without_change.log 2>&1; d0=$?
 tail -5 $out/demo_without_change.log
-git stash pop
+git apply $out/patch.diff
 echo "RESULT suite_with_change=$s1 demo_with_change=$d1 demo_without_change=$d0"
 if [ $s1 -eq 0 ] && [ $d1 -ne 0 ] && [ $d0 -eq 0 ]; then echo CONFIRMED; else echo NOT-CONFIRMED; fi
